@@ -658,7 +658,8 @@ class Remember(Suite):
         for how, got in (("get_origin_branches()", tup(rd["origin"])), ("get_origin_node_branches(k) over all k", tup(b for v in rd["by_node"].values() for b in v)),
                          (".branches", tup(b for v in rd["attr"].values() for b in v))):
             if got != want:
-                bad = [b for b in got if b not in want][:1]
+                ws = set(want)
+                bad = [b for b in got if b not in ws][:1]
                 out.append((f"branchtree-points{when[0]}", f"pids={pids if n <= 40 else '…'}: {when[1]} {how} gives {len(got)} branches that are not exactly the points of the "
                                                           f"{len(want)} original branches (e.g. {bad[0][:3] if bad else 'one is missing'})"))
                 break
@@ -710,7 +711,272 @@ class Remember(Suite):
         return case.get("family", "-")
 
 
-SUITES = [Decomp(), Remember()]
+# ---------------------------------------------------------------------------------------------------------------------------------
+# ONE transform object applied to SEVERAL trees in a row (how a transform is used in a Transforms pipeline / a dataset: built once,
+# called per tree).  The property is stated per tree: what ToLongestPath / ToBranchTree return for a tree is a matter of that tree,
+# whatever the same object was asked before.  The family is ordered by what came before: the longest root-to-tip path of the
+# trees falls / rises / is mixed along the sequence, or the same tree comes twice.
+
+REUSE_ORDERS = ["longest-path-decreasing", "longest-path-increasing", "shuffled", "same-tree-again", "large-then-small"]
+
+
+def longest_of(pids, xyz):
+    """length of the longest root-to-tip path, from the parent table and the points alone (parents may come after children)"""
+    n = len(pids)
+    d = [None] * n
+    for i in range(n):
+        chain, j = [], i
+        while d[j] is None and pids[j] >= 0:
+            chain.append(j); j = pids[j]
+        if d[j] is None:
+            d[j] = 0.0
+        for v in reversed(chain):
+            d[v] = d[pids[v]] + float(np.linalg.norm(np.array(xyz[v], dtype=np.float64) - np.array(xyz[pids[v]], dtype=np.float64)))
+    has_kid = set(pids)
+    return max(d[i] for i in range(n) if i not in has_kid or n == 1)
+
+
+class Reuse(Suite):
+    name = "c08.reuse"
+
+    def cases(self, rng, tier, widen):
+        out = []
+        reps = 3 if tier == "quick" and not widen else 10
+        pool = [n for n in gen.sizes(tier, widen) if 2 <= n <= 120]
+        k = rng.randrange(len(gen.SHAPES))
+        for order in REUSE_ORDERS:
+            for _ in range(reps):
+                trees = []
+                for _j in range(rng.randint(2, 4)):
+                    shape = gen.pick_shape(rng, k); k += 1
+                    if shape in ("single",):
+                        shape = rng.choice(["chain", "stem", "random", "binary", "star"])
+                    trees.append(gen.tree_case(rng, rng.choice(pool), shape, numbering=rng.choice(["sorted", "root0"]), coords="lattice",
+                                               types=rng.choice(["mixed", "anyroot"])))
+                key = lambda t: longest_of(t["pids"], t["xyz"])
+                if order == "longest-path-decreasing":
+                    trees.sort(key=key, reverse=True)
+                elif order == "longest-path-increasing":
+                    trees.sort(key=key)
+                elif order == "same-tree-again":
+                    trees = trees[:2] + [trees[0]]
+                elif order == "large-then-small":
+                    trees.sort(key=lambda t: t["n"], reverse=True)
+                out.append({"class": f"one-transform-object-many-trees/{order}", "family": f"one-transform-object-many-trees/{order}", "trees": trees,
+                            "via": rng.choice(["direct", "pipeline"]), "tree": trees[0]})
+        return out
+
+    def run(self, case):
+        from swcgeom.transforms import ToBranchTree, ToLongestPath, Transforms
+
+        wrap = (lambda f: Transforms(f)) if case["via"] == "pipeline" else (lambda f: f)
+        f_keep, f_det, f_bt = wrap(ToLongestPath(detach=False)), wrap(ToLongestPath()), wrap(ToBranchTree())
+        seq = []
+        with warnings.catch_warnings():
+            warnings.simplefilter("ignore")
+            for tc in case["trees"]:
+                t = gen.make_tree(tc)
+                one = {}
+                try:
+                    lp = f_keep(t)
+                    one["longest"] = {"ids": [int(v) for v in lp.get_ndata(lp.names.id)], "length": float(lp.length())}
+                    one["detached_xyz"] = np.asarray(f_det(t).xyz()).astype(float).tolist()
+                except Exception as e:  # noqa: BLE001 - the property promises the longest path of every tree
+                    one["longest_exc"] = f"{type(e).__name__}: {e}"[:200]
+                try:
+                    bt = f_bt(t)
+                    one["bt"] = {"pid": [int(p) for p in bt.pid()], "xyz": bt.xyz().astype(float).tolist(),
+                                 "origin": [pts(b) for b in bt.get_origin_branches()],
+                                 "by_node": {str(k): [pts(b) for b in bt.get_origin_node_branches(k)] for k in sorted(bt.branches.keys())},
+                                 "attr": {str(k): [pts(b) for b in v] for k, v in sorted(bt.branches.items())}}
+                except Exception as e:  # noqa: BLE001
+                    one["bt_exc"] = f"{type(e).__name__}: {e}"[:200]
+                seq.append(one)
+        return {"seq": seq}
+
+    def oracle(self, case, res):
+        try:
+            return self._oracle(case, res)
+        except Exception as e:  # noqa: BLE001
+            return [("malformed-output", f"the outputs cannot be judged ({type(e).__name__}: {str(e)[:160]})")]
+
+    def _oracle(self, case, res):
+        if "exc" in res:
+            return [("decomp-raises", f"{res['exc']}: {res.get('msg')}")]
+        out = []
+        for j, (tc, one) in enumerate(zip(case["trees"], res["seq"])):
+            pids, xyz, n = tc["pids"], tc["xyz"], tc["n"]
+            where = f"tree {j + 1} of {len(case['trees'])} given to the same transform object (pids={pids if n <= 40 else '…'})"
+            if "longest_exc" in one:
+                out.append(("longest-path-raises/transform-reused", f"{where}: ToLongestPath raised {one['longest_exc']}"))
+            else:
+                L, best = one["longest"], longest_of(pids, xyz)
+                ids = L["ids"]
+                P = np.array(xyz, dtype=np.float64)
+                chain = len(ids) >= 1 and ids[0] == 0 and all(0 <= v < n for v in ids) and all(pids[ids[q + 1]] == ids[q] for q in range(len(ids) - 1)) \
+                    and ids[-1] not in set(pids)
+                ln = float(np.linalg.norm(P[ids[1:]] - P[ids[:-1]], axis=1).sum()) if chain else -1.0
+                tol = 1e-4 * max(1.0, best)
+                if not chain or abs(ln - best) > tol or abs(L["length"] - best) > tol:
+                    out.append(("longest-path/transform-reused", f"{where}: ToLongestPath gives {ids} of length {L['length']}; it is "
+                                f"{'not a root-to-tip path' if not chain else 'not the longest one'} (the longest root-to-tip path has length {best})"))
+                elif one["detached_xyz"] != [[float(c) for c in xyz[i]] for i in ids] and \
+                        abs(float(np.linalg.norm(np.diff(np.array(one["detached_xyz"], dtype=np.float64).reshape(-1, 3), axis=0), axis=1).sum()) - best) > tol:
+                    out.append(("longest-path/transform-reused", f"{where}: the detached longest path does not carry the positions of a longest root-to-tip path"))
+            if "bt_exc" in one:
+                out.append(("branchtree-raises/transform-reused", f"{where}: ToBranchTree raised {one['bt_exc']}"))
+            else:
+                out += [(k_ + "/transform-reused", m) for k_, m in Remember.judge(pids, [[float(c) for c in p] for p in xyz], one["bt"], ("", where + ":"))]
+        seen, uniq = set(), []
+        for k_, m in out:
+            if k_ not in seen:
+                seen.add(k_); uniq.append((k_, m))
+        return uniq[:4]
+
+    def nontrivial(self, case, res):
+        return len(case["trees"]) >= 2 and all(t["n"] >= 3 for t in case["trees"])
+
+    def klass(self, case, res):
+        return case.get("family", "-")
+
+
+# ---------------------------------------------------------------------------------------------------------------------------------
+# LARGE trees ("for all trees"): a whole-cell reconstruction has 10^4..10^5 sample points.  The scale is taken from the widths of
+# the integer types ids live in, not from any implementation: more branch-tree nodes than a 16-bit id counts (2**16), so that a
+# product of two ids / of an id and the node count no longer fits 32 bits; between sqrt(2**31) and 2**16 (such a product passes
+# the sign bit of 32 bits only); 2**17.  Shapes: a neurite giving off side twigs level after level (furcations of high fan-out,
+# the continuing child first / last / anywhere among its siblings), k-ary trees, random recursive trees.  Only the branch-level
+# statements are observed here (branches, tips, furcations, the branch tree and what it remembers): the per-node listings of the
+# other suites are quadratic on such trees.  The case stores the DESCRIPTION of the tree (shape, parameters, generator seed).
+
+def large_pids(d):
+    rng = __import__("random").Random(d["seed"])
+    if d["shape"] == "comb":
+        pids = comb_pids(rng, d["levels"], d["spine"], d["twig"], d["fan"])
+    elif d["shape"] == "k-ary":
+        pids = [-1] + [(i - 1) // d["k"] for i in range(1, d["n"])]
+    else:                                               # random recursive tree, the parent among the `window` nodes before
+        pids = [-1] + [rng.randrange(max(0, i - d["window"]), i) for i in range(1, d["n"])]
+    return gen.renumber_root0(rng, pids) if d.get("renumber") else pids
+
+
+def large_xyz(d, n):
+    i = np.arange(n, dtype=np.int64)
+    return np.stack([i % 4096, i // 4096, (d["a"] * i) % 11], axis=1).astype(np.float32)      # distinct lattice points, exact in float32
+
+
+def large_desc(rng, shape, target, **kw):
+    d = {"shape": shape, "seed": rng.randrange(10 ** 9), "a": rng.randint(2, 9), "target": target}
+    want = target + rng.randint(target // 32, target // 8)         # branch-tree nodes: beyond the boundary by 3 .. 12 %
+    if shape == "comb":
+        levels = kw.get("levels") or rng.randint(800, 2500)
+        d.update(levels=levels, spine=kw.get("spine", "random"), twig=kw.get("twig", 1), fan=-(-want // levels) + 1)
+    elif shape == "k-ary":
+        k = kw.get("k", 2)
+        d.update(k=k, n=want + (1 - want % k) % k)                 # n ≡ 1 (mod k): every inner node has k children
+    else:
+        d.update(n=2 * want, window=kw.get("window", 50))
+    d.update(renumber=bool(kw.get("renumber")))
+    return d
+
+
+BOUNDS = {"2^16": 2 ** 16, "sqrt(2^31)": 46341, "2^17": 2 ** 17, "2^15": 2 ** 15}
+
+
+class Large(Suite):
+    name = "c08.large"
+    case_timeout = 300.0
+    repeat = 0
+
+    def cases(self, rng, tier, widen):
+        plan = [("comb", "2^16", {"spine": "random"})]       # quick: ONE member beyond 2**16 (levels, fan-out, where the neurite carries on: drawn)
+        if tier == "thorough" or widen:
+            plan += [("comb", "2^16", {"spine": "first"}), ("comb", "2^16", {"spine": "last", "twig": 2}), ("comb", "sqrt(2^31)", {"spine": "random"}),
+                     ("k-ary", "2^16", {"k": rng.choice([2, 3])}), ("random", "2^16", {"window": rng.choice([5, 50, 10 ** 6])}),
+                     ("comb", "2^17", {"spine": "random", "levels": rng.randint(300, 800)}), ("comb", "2^15", {"spine": "random", "renumber": True})]
+        out = []
+        for shape, b, kw in plan:
+            d = large_desc(rng, shape, BOUNDS[b], **kw)
+            fam = f"large/branch-tree-nodes-beyond-{b}/{shape}" + (f"/spine-{d['spine']}" if shape == "comb" else "")
+            out.append({"class": fam, "family": fam, "desc": d, "builder": rng.choice(BUILDERS), "big": True})
+        return out
+
+    def run(self, case):
+        from swcgeom.core import BranchTree, Tree
+        from swcgeom.transforms import ToBranchTree
+
+        d = case["desc"]
+        pids = large_pids(d)
+        n = len(pids)
+        P = large_xyz(d, n)
+        t = Tree(n, id=np.arange(n, dtype=np.int32), pid=np.array(pids, dtype=np.int32), type=np.array([1] + [3] * (n - 1), dtype=np.int32),
+                 x=P[:, 0].copy(), y=P[:, 1].copy(), z=P[:, 2].copy(), r=np.ones(n, dtype=np.float32))
+        stage = "Tree.get_branches()"
+        try:
+            res = {"n": n, "branches": [b.origin_id().tolist() for b in t.get_branches()]}
+            stage = "Tree.get_tips() / get_furcations()"
+            res["tips"] = [int(v.id) for v in t.get_tips()]
+            res["furcations"] = [int(v.id) for v in t.get_furcations()]
+            stage = case["builder"]
+            with warnings.catch_warnings():
+                warnings.simplefilter("ignore")
+                bt = BranchTree.from_tree(t) if case["builder"] == "BranchTree.from_tree" else ToBranchTree()(t)
+            stage = "reading the remembered branches"
+            memo = {}
+
+            def rd(b):                                   # one conversion per branch object, however many times it is handed out
+                if id(b) not in memo:
+                    memo[id(b)] = (b, np.asarray(b.xyz(), dtype=np.float64).reshape(-1, 3).tolist())
+                return memo[id(b)][1]
+            res["bt"] = {"pid": bt.pid().tolist(), "xyz": bt.xyz().astype(float).tolist(), "origin": [rd(b) for b in bt.get_origin_branches()],
+                         "by_node": {str(k): [rd(b) for b in bt.get_origin_node_branches(k)] for k in sorted(bt.branches.keys())},
+                         "attr": {str(k): [rd(b) for b in v] for k, v in sorted(bt.branches.items())}}
+        except Exception as e:  # noqa: BLE001 - the property promises a decomposition / a branch tree of every tree
+            return {"exc": type(e).__name__, "msg": f"{stage} raised on a tree of {n} nodes: {str(e)[:160]}", "stage": stage}
+        return res
+
+    def oracle(self, case, res):
+        try:
+            return self._oracle(case, res)
+        except Exception as e:  # noqa: BLE001
+            return [("malformed-output", f"tree {case['desc']}: the outputs cannot be judged ({type(e).__name__}: {str(e)[:160]})")]
+
+    def _oracle(self, case, res):
+        d = case["desc"]
+        if "exc" in res:
+            return [("branchtree-raises/large" if res.get("stage") in BUILDERS + ["reading the remembered branches"] else "decomp-raises/large", f"{res['exc']}: {res.get('msg')} ({d})")]
+        pids = large_pids(d)
+        n = len(pids)
+        nkid = np.bincount(np.array(pids[1:], dtype=np.int64), minlength=n) if n > 1 else np.zeros(1, dtype=np.int64)
+        out = []
+        edges = {(pids[i], i) for i in range(1, n)}
+        got = [(b[k], b[k + 1]) for b in res["branches"] for k in range(len(b) - 1)]
+        if len(got) != len(edges) or set(got) != edges:
+            out.append(("branches-partition/large", f"tree {d} ({n} nodes): the branches hold {len(got)} edges ({len(set(got))} distinct), the tree has {len(edges)}; "
+                        f"e.g. missing {sorted(edges - set(got))[:3]}"))
+        for b in res["branches"]:
+            if len(b) < 2 or not (b[0] == 0 or nkid[b[0]] >= 2) or nkid[b[-1]] == 1 or any(nkid[v] != 1 for v in b[1:-1]):
+                out.append(("branch-shape/large", f"tree {d}: branch {b[:6]}… does not run root/furcation → furcation/tip through pass-through nodes")); break
+        if sorted(res["tips"]) != np.flatnonzero(nkid == 0).tolist():
+            out.append(("tips/large", f"tree {d}: get_tips() gives {len(res['tips'])} nodes, the tree has {int((nkid == 0).sum())} childless nodes"))
+        if sorted(res["furcations"]) != np.flatnonzero(nkid >= 2).tolist():
+            out.append(("furcations/large", f"tree {d}: get_furcations() gives {len(res['furcations'])} nodes, {int((nkid >= 2).sum())} have two or more children"))
+        xyz = large_xyz(d, n).astype(float).tolist()
+        out += [(k_ + "/large", f"tree {d} ({n} nodes): " + m) for k_, m in Remember.judge(pids, xyz, res["bt"], ("", f"{case['builder']}:"))]
+        seen, uniq = set(), []
+        for k_, m in out:
+            if k_ not in seen:
+                seen.add(k_); uniq.append((k_, m))
+        return uniq[:4]
+
+    def nontrivial(self, case, res):
+        return True
+
+    def klass(self, case, res):
+        return case.get("family", "-")
+
+
+SUITES = [Decomp(), Remember(), Reuse(), Large()]
 TECHNIQUE = "Lean 4 theorems by structural induction on Rose about the traversal callbacks of get_branches/get_paths/get_furcations (edge partition as a permutation, branch shape, one path per tip); Tree.get_branches / get_furcations / get_paths and their closures are TRANSLATED from tree.py on every run (harness/translate_algo.py → Gen/AlgoBranches.lean, running on the translated _traverse_dfs) and get_branches / get_furcations proved equal to the structural recursions of these theorems (RefineBranches.getBranches_refines, getFurcations_refines; closures of get_paths: callback-level equalities) + differential correspondence + direct oracle of the decomposition"
 LEVEL_TEXT = ("Kernel-checked for every tree shape: the branches returned by the model of get_branches (incl. the stem of a one-child root) list every "
               "parent–child edge exactly once, start at the root or a furcation, end at a furcation or tip and pass only through one-child nodes; one path per tip; "
